@@ -421,7 +421,10 @@ pub fn bfs_file(
         }
         for op in &ops {
             let mut c = states[head].0.clone();
-            if opt.check_results && fingerprint(&c) != fp_before {
+            // a clone continues "from the same position": observably, its current() is the
+            // original's (internal state may differ; the results of the operations run on the clone
+            // are compared with the model below)
+            if opt.check_results && own(c.current()) != cur_before {
                 file_violations += 1;
                 let path = path_to(&parents, head);
                 acc.violation(Violation {
@@ -477,9 +480,9 @@ pub fn bfs_file(
                 }
             }
             if bad.is_none() && opt.check_results {
-                // clone independence: the original is untouched
-                let fp_after = fingerprint(&states[head].0);
-                if fp_after != fp_before || own(states[head].0.current()) != cur_before {
+                // clone independence, observably: the original still stands where it stood (its
+                // later answers are checked when the search runs the other operations from it)
+                if own(states[head].0.current()) != cur_before {
                     bad = Some(format!("{} on a clone changed the original cursor", op.brief()));
                     kind = "clone";
                 }
@@ -587,10 +590,10 @@ pub fn replay_history(spec: &FileSpec, ops: &[Op], prop: &str) -> Result<String,
             pos = Pos::Unspec;
             continue;
         }
-        let fp_before = fingerprint(&c);
+        let cur_before = own(c.current());
         let mut next = c.clone();
         let got = apply(&mut next, op);
-        if fingerprint(&c) != fp_before && prop == "C03" {
+        if own(c.current()) != cur_before && prop == "C03" {
             return Err(format!("{log}step {i}: {} on a clone changed the original cursor", op.brief()));
         }
         c = next;
@@ -617,7 +620,7 @@ pub fn replay_history(spec: &FileSpec, ops: &[Op], prop: &str) -> Result<String,
         if let (Some(w), Some(g)) = (&want, &got) {
             let w_obs: Obs = w.map(|i| (model.entries[i].0.clone(), model.entries[i].1.clone()));
             log.push_str(&format!("  step {i}: {} -> {} (model {}), {loads} loads\n", op.brief(), obs_brief(g), obs_brief(&w_obs)));
-            if &w_obs != g && prop == "C03" {
+            if &w_obs != g && prop != "C16" {
                 return Err(format!("{log}step {i}: {} returned {} but the model says {}", op.brief(), obs_brief(g), obs_brief(&w_obs)));
             }
         } else {
@@ -630,7 +633,7 @@ pub fn replay_history(spec: &FileSpec, ops: &[Op], prop: &str) -> Result<String,
         if let Pos::At(j) = pos {
             let cur = own(c.current());
             let want = Some((model.entries[j].0.clone(), model.entries[j].1.clone()));
-            if cur != want && prop == "C03" {
+            if cur != want && prop != "C16" {
                 return Err(format!("{log}after step {i}: current() = {} expected {}", obs_brief(&cur), obs_brief(&want)));
             }
         }
